@@ -3,7 +3,10 @@
 Started by impl_c04.py under /venv/bin/python with PYTHONPATH=$OUTRANK_REPO.  Protocol: prints `@@READY` after
 the (expensive) import, then for every JSON line on stdin prints one line `@@R <json>`.
 
-A request is {"id", "Y", "X", "r", "c", "poison": <double or null>, "Y2": <list or null>}.  Before every call into the
+A request is {"id", "Y", "X", "r", "c", "poison": <double or null>, "Y2": <list or null>}, or, for the SCALE families,
+{"id", "scale": {generator parameters incl. "r", "c", "reps"}, "poison"}: the arrays are generated here by
+impl_c04_npmodel.gen_scale, the calls are repeated `reps` times, and the arrays returned by stratified_subsampling are
+summarised (length, sha1, per-value counts, head, tail) instead of shipped.  The number of numba threads is never restricted.  Before every call into the
 numba code the malloc free lists are poisoned: many chunks of 16..4096 bytes and of sizes around the index
 buffer's size are malloc'ed through ctypes, filled with the given double and freed again, so that a later
 `np.empty(...)` inside the compiled code finds that pattern as its "uninitialised" contents.  With poison = null
@@ -53,13 +56,34 @@ def fl(x):
 
 
 def run_case(q):
+    scale = q.get("scale")
+    pv = q.get("poison")
+    out = {"id": q["id"]}
+    if scale is not None:           # big input given by generator parameters; arrays are summarised, not shipped
+        import numba
+        import impl_c04_npmodel as nm
+        Y, X = nm.gen_scale(scale)
+        r = np.float32(scale["r"])
+        c = bool(scale["c"])
+        target = min(8 * int(float(r) * len(X)), 1 << 18)      # larger blocks come straight from mmap (zero pages)
+        f_values = m.numba_unique(X)[0]
+        reps = []
+        for _ in range(int(scale.get("reps", 3))):
+            poison(pv, target)
+            ys, xs = m.stratified_subsampling(Y, X, r, f_values)
+            rep = {"sum": nm.summary(ys, xs)}
+            del ys, xs
+            poison(pv, target)
+            rep["score"] = fl(m.mutual_info_estimator_numba(Y, X, r, c))
+            reps.append(rep)
+        out["reps"] = reps
+        out["numba_threads"] = int(numba.get_num_threads())
+        return out
     Y = np.array(q["Y"], dtype=np.int32)
     X = np.array(q["X"], dtype=np.int32)
     r = np.float32(q["r"])
     c = bool(q["c"])
-    pv = q.get("poison")
     target = 8 * int(float(r) * len(X))
-    out = {"id": q["id"]}
     f_values = m.numba_unique(X)[0]
     poison(pv, target)
     ys, xs = m.stratified_subsampling(Y, X, r, f_values)
